@@ -81,12 +81,15 @@ theorem fiter_refines_filter {σ α : Type} (I : It σ α) (flt rng : α → Boo
     drain I flt rng g k (new s) = (drainIt I n s).filter (fun e => flt e && rng e) :=
   drain_eq_filter I flt rng n s none g k h hg hk
 
-/-! ### the default range (no RANGE clause) — open finding F-C05-902 -/
+/-! ### the default range (no RANGE clause) — finding F-C05-902, repaired in /repo d9d7013 -/
+
+/-- the range predicate of a fiterator with the bounds `mn`, `mx` -/
+def rangeOf (mn mx : Int) (ev : Where.Event) : Bool := inRange mn mx ev.ts
 
 /-- the range predicate `newFIterator` installs when the statement has no RANGE (constants regenerated from
-`pkg/cursor/fiterator.go` + `pkg/model/tmrange.go`) -/
+`pkg/cursor/fiterator.go`, `pkg/model/tmrange.go`, `math`) -/
 def defaultRange (ev : Where.Event) : Bool :=
-  inRange Generated.C05.fiterDefaultRangeMin Generated.C05.fiterDefaultRangeMax ev.ts
+  rangeOf Generated.C05.fiterDefaultRangeMin Generated.C05.fiterDefaultRangeMax ev
 
 /-- what a `SELECT … WHERE e` without RANGE delivers, by `fiter_refines_filter`: the events for which `e` holds **and**
 whose timestamp lies in the default range -/
@@ -99,18 +102,27 @@ theorem fiter_default_range_meaning {σ : Type} (I : It σ Where.Event) (flt : W
 def C05_default_range_full : Prop :=
   ∀ ev : Where.Event, -(2^63) ≤ ev.ts → ev.ts < 2^63 → defaultRange ev = true
 
-/-- **F-C05-902, kernel-checked on the regenerated constants**: the default lower bound is −6795364578871345152 (the
-wrapped `time.Time{}.UnixNano()`), not the int64 minimum, so an event stamped just below it is dropped by the filtering
-iterator although the WHERE function is true for it — it is delivered by the same SELECT without WHERE, which does not
-go through the filtering iterator. (With the repair — default range `[math.MinInt64, math.MaxInt64]` — this theorem
-fails and `C05_default_range_full` becomes provable.) -/
-theorem cex_default_range_drops_early_events :
-    ¬ C05_default_range_full ∧
-    drain (listIt Where.Event) Where.positive defaultRange 2 2 (new ⟨[⟨-6795364578871345153, [109], []⟩], 0, false, false⟩) = [] ∧
-    ([⟨-6795364578871345153, [109], []⟩] : List Where.Event).filter Where.positive = [⟨-6795364578871345153, [109], []⟩] := by
-  refine ⟨fun h => ?_, by decide, by simp [Where.positive]⟩
-  have := h ⟨-6795364578871345153, [109], []⟩ (by decide) (by decide)
-  exact absurd this (by decide)
+/-- **Without a RANGE every int64 timestamp is in range** — on the regenerated constants of the no-RANGE branch of
+`newFIterator` (`[math.MinInt64, math.MaxInt64]` since /repo d9d7013; with the earlier lower bound `model.MinTimestamp` =
+−6795364578871345152 this obligation fails: finding F-C05-902). -/
+theorem default_range_full : C05_default_range_full := by
+  intro ev h1 h2
+  have e : (2 : Int) ^ 63 = 9223372036854775808 := by decide
+  have hmin : Generated.C05.fiterDefaultRangeMin ≤ -9223372036854775808 := by decide
+  have hmax : 9223372036854775807 ≤ Generated.C05.fiterDefaultRangeMax := by decide
+  rw [e] at h1 h2
+  simp only [defaultRange, rangeOf, inRange, Bool.and_eq_true, decide_eq_true_eq, ge_iff_le]
+  omega
+
+/-- hence **`SELECT … WHERE e` without RANGE delivers exactly `filter e`** of the underlying events (int64 timestamps):
+the default range takes nothing away -/
+theorem select_where_no_range_exact {σ : Type} (I : It σ Where.Event) (flt : Where.Pred) (n : Nat) (s : σ)
+    (h : Exhausts I n s) (h64 : ∀ ev ∈ drainIt I n s, -(2^63) ≤ ev.ts ∧ ev.ts < 2^63) :
+    drain I flt defaultRange (n+1) (n+1) (new s) = (drainIt I n s).filter flt := by
+  rw [fiter_default_range_meaning I flt n s h]
+  apply List.filter_congr
+  intro ev hev
+  rw [default_range_full ev (h64 ev hev).1 (h64 ev hev).2, Bool.and_true]
 
 /-- never alters, reorders or duplicates: the output is a sublist of the wrapped iterator's output -/
 theorem fiter_sublist {σ α : Type} (I : It σ α) (flt rng : α → Bool) (n : Nat) (s : σ) (h : Exhausts I n s) :
@@ -128,6 +140,31 @@ theorem fiter_list_forward {α : Type} (items : List α) (flt rng : α → Bool)
     (Nat.le_refl _) (Nat.le_refl _)
   rw [hd] at this
   simpa using this
+
+/-- **Why the default range must be the whole int64 range (the other branch, constants as parameters).** With ANY lower
+bound `mn` above the int64 minimum, the event stamped `mn − 1` is a legal event for which the WHERE function `flt` is
+true, and the filtering iterator with the range `[mn, mx]` delivers nothing — while `List.filter flt` keeps it. Instance:
+`mn = model.MinTimestamp = −6795364578871345152`, the default before /repo d9d7013 (finding F-C05-902). -/
+theorem cex_narrow_default_range_drops_events (mn mx : Int) (h : -(2^63) < mn) (hm : mn ≤ 2^63) (flt : Where.Pred)
+    (msg fields : Bytes) (hf : flt ⟨mn - 1, msg, fields⟩ = true) :
+    (-(2^63) ≤ mn - 1 ∧ mn - 1 < 2^63) ∧
+    drain (listIt Where.Event) flt (rangeOf mn mx) 2 2 (new ⟨[⟨mn - 1, msg, fields⟩], 0, false, false⟩) = [] ∧
+    ([⟨mn - 1, msg, fields⟩] : List Where.Event).filter flt = [⟨mn - 1, msg, fields⟩] := by
+  refine ⟨by omega, ?_, by simp [hf]⟩
+  have := fiter_list_forward [(⟨mn - 1, msg, fields⟩ : Where.Event)] flt (rangeOf mn mx)
+  simp only [List.length_cons, List.length_nil, Nat.zero_add, Nat.reduceAdd] at this
+  rw [this]
+  have hr : rangeOf mn mx ⟨mn - 1, msg, fields⟩ = false := by
+    simp only [rangeOf, inRange, Bool.and_eq_false_iff, decide_eq_false_iff_not]
+    left; omega
+  simp [hf, hr]
+
+/-- the instance that was the code's default range before the repair -/
+theorem cex_F_C05_902_old_default :
+    drain (listIt Where.Event) Where.positive (rangeOf (-6795364578871345152) 9223372036854775807) 2 2
+      (new ⟨[⟨-6795364578871345153, [109], []⟩], 0, false, false⟩) = [] :=
+  (cex_narrow_default_range_drops_events (-6795364578871345152) 9223372036854775807 (by decide) (by decide)
+    Where.positive [109] [] rfl).2.1
 
 /-- read backward from position `i` (after `SetBackward(true)`), the fiterator delivers the filter of the reversed prefix -/
 theorem fiter_list_backward {α : Type} (items : List α) (flt rng : α → Bool) (i : Nat) (hi : i < items.length) :
